@@ -122,6 +122,14 @@ class ObjectFactory:
         secret_data_type = secret.secret_data_type.value
         value = secret.key_block.key_value.key_material.value
 
+        # The Pie SecretData class cannot hold key wrapping data. Storing
+        # the wrapped bytes without it would hand them back later as if they
+        # were the secret itself.
+        if secret.key_block.key_wrapping_data is not None:
+            raise TypeError(
+                "core key wrapping data not compatible with Pie SecretData"
+            )
+
         return pobjects.SecretData(value, secret_data_type)
 
     def _build_pie_opaque_object(self, obj):
